@@ -212,7 +212,10 @@ fn process_dir(
                     *quit = true;
                     break;
                 }
-                if matcher_io.should_skip_current_dir() {
+                // Under -depth a directory is visited after its contents, so
+                // there is nothing left to skip (and skip_current_dir() would
+                // drop the remaining entries of the parent directory instead).
+                if matcher_io.should_skip_current_dir() && !config.depth_first {
                     it.skip_current_dir();
                 }
             }
